@@ -1315,8 +1315,30 @@ class Interp:
                 self.assign(item.optional_vars, Unknown(f"with:{_src(item.context_expr)[:30]}") if isinstance(v, Unknown) else v)
         self.run(s.body)
 
+    def lazy_items(self, v, label):
+        """Items of an iterable; AbsVals implementing ``__next__`` are consumed lazily (one per iteration)."""
+        if isinstance(v, AbsVal) and not isinstance(v, (AList, ASet, ADict, Unknown, AIter)) and getattr(v, "lazy", False):
+            n = 0
+            while True:
+                n += 1
+                if n > self.MAX_LOOP:
+                    raise LoopBound(label)
+                try:
+                    yield v.call_method(self, "__next__", [], {})
+                except Raised as r:
+                    if r.cls_name() == "StopIteration":
+                        return
+                    raise
+        elif isinstance(v, AIter):
+            while v.pos < len(v.seq):
+                v.pos += 1
+                yield v.seq[v.pos - 1]
+        else:
+            for x in self.iterate(v, label):
+                yield x
+
     def st_For(self, s):
-        items = self.iterate(self.ev(s.iter), _src(s.iter))
+        items = self.lazy_items(self.ev(s.iter), _src(s.iter))
         broke = False
         for v in items:
             self.assign(s.target, v)
